@@ -421,10 +421,92 @@ def bounded_histories(ctx):
     ctx.sample({'history': ['linear_checked_up', 'variable', 'clause_unchecked_inside', 'block'], 'class': 'cnf'})
 
 
+def eval_reuse(cls, steps):
+    """one graph object per kind serves several formulas in a row (and two groups of one formula); every formula built
+    on it must mention only its own variables, allocate fresh identifiers, and be the same formula as when built on a
+    fresh copy of the graph.  steps: list of step names.  Returns a description of the first problem or None"""
+    core.import_repo()
+    from cnfgen.graphs import BipartiteGraph, DirectedGraph, Graph
+    from cnfgen import GraphPigeonholePrinciple, SubsetCardinalityFormula, SparseStoneFormula, TseitinFormula, PebblingFormula
+    C = _classes()[cls]
+
+    def mk():
+        B = BipartiteGraph(4, 3)
+        for u, v in [(1, 1), (1, 3), (2, 2), (3, 1), (3, 2), (4, 3)]:
+            B.add_edge(u, v)
+        D = DirectedGraph(4)
+        for u, v in [(1, 3), (2, 3), (3, 4)]:
+            D.add_edge(u, v)
+        G = Graph(4)
+        for u, v in [(1, 2), (2, 3), (3, 4), (1, 4)]:
+            G.add_edge(u, v)
+        return B, D, G
+
+    def build(step, B, D, G):
+        if step == 'gphp':
+            return GraphPigeonholePrinciple(B, formula_class=C)
+        if step == 'subsetcard':
+            return SubsetCardinalityFormula(B, formula_class=C)
+        if step == 'sparsestone':
+            return SparseStoneFormula(D, B, formula_class=C)
+        if step == 'tseitin':
+            return TseitinFormula(G, formula_class=C)
+        if step == 'peb':
+            return PebblingFormula(D, formula_class=C)
+        if step.startswith('manual'):
+            F = C()
+            X = F.new_block(2, 2)
+            F.add_clause([X(1, 1), -X(2, 2)])
+            e1 = F.new_bipartite_edges(B)
+            F.add_clause(list(e1(1, None)))
+            e2 = F.new_sparse_mapping(B)
+            F.add_clause([-l for l in e2(None, 1)])
+            g1 = F.new_graph_edges(G)
+            F.add_clause(list(g1()))
+            d1 = F.new_digraph_edges(D)
+            F.add_clause(list(d1()))
+            return F
+        raise ValueError(step)
+
+    B, D, G = mk()
+    for i, step in enumerate(steps):
+        with Monitor() as mon:
+            F = build(step, B, D, G)
+        if mon.events:
+            return 'step {} ({}) on reused graph objects: {}'.format(i, step, mon.events[0])
+        bad = scan(F)
+        if bad:
+            return 'step {} ({}) on reused graph objects: {}'.format(i, step, bad)
+        Fref = build(step, *mk())
+        if F.number_of_variables() != Fref.number_of_variables() or list(F) != list(Fref):
+            return 'step {} ({}): the formula differs from the one built on fresh graph objects'.format(i, step)
+    return None
+
+
+def replay_reuse(cls, steps):
+    return eval_reuse(cls, steps) is None
+
+
+def bounded_reuse(ctx):
+    import itertools
+    names = ['gphp', 'subsetcard', 'sparsestone', 'tseitin', 'peb', 'manual']
+    seqs = [list(p) for p in itertools.permutations(names, 2)] + [names, names[::-1], ['manual', 'manual'], ['gphp', 'gphp']]
+    ctx.bounds['graph object reuse'] = '{} sequences of formulas built one after the other on the same graph objects, both classes'.format(len(seqs))
+    for cls in ('cnf', 'opb'):
+        for steps in seqs:
+            ctx.case(('reuse', cls, tuple(steps)))
+            bad = eval_reuse(cls, steps)
+            if bad:
+                ctx.violation('reuse:{}'.format(steps[-1] if len(steps) == 2 else 'chain'), '{} {}: {}'.format(cls, steps, bad),
+                              {'fn': 'checks.C10:replay_reuse', 'args': dict(cls=cls, steps=steps)})
+    ctx.sample({'graph object reuse': ['gphp', 'sparsestone'], 'class': 'opb'})
+
+
 def run(ctx):
     from checks import proofs
     proofs.run_group(ctx, 'C10')
     core.import_repo()
+    bounded_reuse(ctx)
     bounded_families(ctx)
     bounded_transformations(ctx)
     bounded_histories(ctx)
